@@ -125,7 +125,8 @@ theorem F9.stopTimers (g : Gw) : F9 0 g g.stopTimers := by
     exact hI.bp y hy
   · have h : unsent g.stopTimers = unsent g := filter_unsent_stop g.txs
     have h2 : mqConnects g.stopTimers = mqConnects g := rfl
-    unfold pot; rw [h, h2]; exact Nat.le_refl _
+    unfold pot; rw [h, h2]
+    exact ⟨Nat.le_refl _, fun _ => rfl, Or.inl rfl⟩
 
 theorem F9.finishSession (g : Gw) : F9 0 g g.finishSession := by
   unfold Gw.finishSession
@@ -157,13 +158,14 @@ theorem F9.advance : ∀ (fuel : Nat) (g : Gw) (t : Nat), F9 0 g (advance fuel g
 theorem F9.sample (g : Gw) : F9 0 g g.sample := by
   unfold Gw.sample Gw.sampleBuf Gw.sampleReg Gw.sampleState
   have e : ∀ (x y : Gw) (o : Out), isMqConnect (y.now, o) = false → y.outs = x.outs → y.txs = x.txs → y.nextTx = x.nextTx →
-      F9 0 x (y.emit o) := fun x y o ho hou ht hn => (F9.of_eq hou ht hn).trans (F9.emit y o ho)
+      y.endedEmitted = x.endedEmitted →
+      F9 0 x (y.emit o) := fun x y o ho hou ht hn he => (F9.of_eq hou ht hn he).trans (F9.emit y o ho)
   split <;> split <;> split <;>
     first
     | exact F9.refl g
-    | exact (e _ _ _ rfl rfl rfl rfl)
-    | exact (e _ _ _ rfl rfl rfl rfl).trans (e _ _ _ rfl rfl rfl rfl)
-    | exact ((e _ _ _ rfl rfl rfl rfl).trans (e _ _ _ rfl rfl rfl rfl)).trans (e _ _ _ rfl rfl rfl rfl)
+    | exact (e _ _ _ rfl rfl rfl rfl rfl)
+    | exact (e _ _ _ rfl rfl rfl rfl rfl).trans (e _ _ _ rfl rfl rfl rfl rfl)
+    | exact ((e _ _ _ rfl rfl rfl rfl rfl).trans (e _ _ _ rfl rfl rfl rfl rfl)).trans (e _ _ _ rfl rfl rfl rfl rfl)
 
 /-- what a client packet may add to the potential: a CONNECT opens one exchange -/
 def connBudget : Pkt → Nat | .connect .. => 1 | _ => 0
@@ -247,7 +249,7 @@ theorem F9.handleMq (g : Gw) (p : MqPkt) : F9 0 g (g.handleMq p) := by
     · exact F9.refl g
   · exact F9.snSend g _ _
   · split
-    · exact F9.of_eq rfl rfl rfl
+    · exact F9.of_eq rfl rfl rfl rfl
     · split
       · exact F9.refl g
       · exact F9.snSend g _ _
